@@ -99,10 +99,18 @@ def eas_job(job):
                    np.flatnonzero((alt >= 0) & (alt <= 20))[:1]]
         for sel in batches:
             _eas_batch(eas, ev, beta[sel], alt[sel], E[sel], lat[sel], lon[sel], A, QE, thr, Z, dask)
+        # other spellings of the same quantities: whole-kilometre decay altitudes as an INTEGER array (a scan from np.arange), binary32
+        # columns, Python lists.  The numbers are the same events; what the stage returns for them must obey the same rules.
+        k = min(n, 12)
+        alt_int = np.array([0, 1, 5, 10, 19, 20, 21, 25, -1, 3, 7, 15][:k], dtype=np.int64)
+        _eas_batch(eas, ev, beta[:k], alt_int, E[:k], lat[:k], lon[:k], A, QE, thr, Z, dask, raw=True)
+        _eas_batch(eas, ev, beta[:k].astype(np.float32), alt[:k].astype(np.float32), E[:k].astype(np.float32), lat[:k].astype(np.float32),
+                   lon[:k].astype(np.float32), A, QE, thr, Z, dask, raw=True)
     return ev
 
 
-def _eas_batch(eas, ev, beta, alt, E, lat, lon, A, QE, thr, Z, dask):
+def _eas_batch(eas, ev, beta, alt, E, lat, lon, A, QE, thr, Z, dask, raw=False):
+    """raw: hand the arrays to the stage as they are (their dtype is the point) instead of through the float64 argument buffers"""
     n = len(beta)
     if n == 0:
         return
@@ -117,7 +125,10 @@ def _eas_batch(eas, ev, beta, alt, E, lat, lon, A, QE, thr, Z, dask):
         eas.CphotAng.run = logged
         try:
             with dask.config.set(scheduler="synchronous"):
-                pe, ce = eas(BUF("b", beta), BUF("a", alt), BUF("E", E), BUF("la", lat), BUF("lo", lon))
+                if raw:
+                    pe, ce = eas(beta.copy(), alt.copy(), E.copy(), lat.copy(), lon.copy())
+                else:
+                    pe, ce = eas(BUF("b", beta), BUF("a", alt), BUF("E", E), BUF("la", lat), BUF("lo", lon))
         finally:
             eas.CphotAng.run = orig
         reached = {}
@@ -128,7 +139,7 @@ def _eas_batch(eas, ev, beta, alt, E, lat, lon, A, QE, thr, Z, dask):
         for i in range(n):
             r = reached.get((float(beta[i]), float(alt[i]), float(E[i])), [])
             d, th = r.pop(0) if r else (0.0, 1.5)
-            ev.append({"kind": "eas", "alt": bits(alt[i]), "reached": bool(_was(log, (float(beta[i]), float(alt[i]), float(E[i])))),
+            ev.append({"kind": "eas", "f32": bool(np.asarray(beta).dtype == np.float32), "alt": bits(alt[i]), "reached": bool(_was(log, (float(beta[i]), float(alt[i]), float(E[i])))),
                        "dphot": bits(d), "thdeg": bits(th), "A": bits(A), "QE": bits(QE), "thr": bits(thr), "numPEs": bits(pe[i]), "cosEff": bits(ce[i]),
                        "_m": {"alt": float(alt[i]), "A": A, "QE": QE, "thr": thr, "Z": Z, "dphot": d, "thdeg": th, "numPEs": float(pe[i]),
                               "cosEff": float(ce[i]), "batch_len": n}})
